@@ -4,7 +4,7 @@ HEADER = """C06 — Priority-first search expands nodes in priority order.
    vleb is the node-value type's `<=` (a total preorder, as Rust's Ord guarantees). wl_loop_log is wl_loop instrumented
    to return, for every pop, (popped node, queue right after the pop, tree at that moment); wl_loop_log_erase shows it is
    the same machine. The heap property of the transcription (HeapOrd) is PROVED (coq/proofs/StdHeap.v), not monitored."""
-REQUIRES = ["From Gdsl.Model Require Import Spec Callback.", "From Gdsl.Proofs Require Import StdHeap Worklist Pfs."]
+REQUIRES = ["From Gdsl.Model Require Import Spec Callback.", "From Gdsl.Proofs Require Import StdHeap Worklist Pfs SearchGlue."]
 PINS = [
  ("c06_instrumentation_is_erasable", "wl_loop_log_erase", "the instrumented loop returns exactly what wl_loop returns"),
  ("c06_run_is_logged_run", "pfs_run_log", "run_search for the pfs kinds is the (erased) instrumented run the next theorems speak about"),
@@ -18,6 +18,7 @@ PINS = [
  ("c06_path_complete", "pfs_path_complete", "None only if the target is unreachable through accepted edges"),
  ("c06_search_agrees", "pfs_find_agrees", "search() returns the target node exactly when search_path() returns a path"),
  ("c06_terminates", "pfs_terminates", "fuel_bound suffices"),
+ ("c06_no_panic", "wlq_no_panic", "never the unwrap() panic of backtrack_edge_tree (any worklist kind, hence the pfs kinds)"),
  ("c06_node_cmp", "node_cmp_spec", "Ord / PartialOrd of nodes = comparison of their values"),
  ("c06_node_eq", "node_eqb_spec", "node equality = equality of keys"),
 ]
